@@ -37,6 +37,16 @@ theorem req_roundtrip {r : Request} {m : ReqMeaning} (hb : r.Built m) (hf : m.fi
     · exact hd
     · rfl
 
+/-- the encoder's whole result on a large-enough buffer: the reported length, the spec's PDU, and the
+    buffer's own bytes beyond it (DESIGN.md `req_encode_ok`) -/
+theorem req_encode_ok {r : Request} {m : ReqMeaning} (hb : r.Built m) (hf : m.fits) (buf : Bytes)
+    (hl : (reqBytes m).length ≤ buf.length) :
+    r.pduLen = .ok (reqBytes m).length ∧
+    r.encode buf = .ok ((reqBytes m).length, reqBytes m ++ buf.drop (reqBytes m).length) := by
+  refine ⟨?_, ?_⟩
+  · rw [Request.pduLen_eq r (hb.encodable_iff.mpr hf), hb.image_eq]
+  · rw [hb.encode_fits hf buf, if_neg (by omega)]
+
 /-- the reported PDU length always exists for such a request (so `req_roundtrip` is not vacuous in `len`)
     and a buffer shorter than it is refused with `BufferSize` -/
 theorem req_pdu_len_ok {r : Request} {m : ReqMeaning} (hb : r.Built m) (hf : m.fits) :
